@@ -132,6 +132,7 @@ def check_C09(ctx):
     _c09_direct(ctx)
     _c09_known_witnesses(ctx)
     _c09_relational_sweeps(ctx)
+    _c09_relational_errors(ctx)
     # natural triggering at lowered thresholds
     for k in range(30 if ctx.tier == 'quick' else 400):
         if ctx.time_left() < 5:
@@ -1045,3 +1046,94 @@ def _c09_relational_sweeps(ctx):
                           f'{"any-order" if arbitrary else "adjacent"}:'
                           f'{"wide" if wide else "narrow"}:{npairs}')
                 _c09_one(ctx, lines, held_all, names, label, label, args)
+
+
+def _c09_relational_errors(ctx):
+    """`image` / `preimage` calls that are REJECTED (a rename target that is an undeclared name:
+    TypeError inside `_image`, after nodes may have been added; a key that is also a value; a
+    target in the support; an invalid `qvars`), with the request firing at every position: the
+    same exception class as without reordering, never the internal signal, reordering still
+    enabled afterwards (the `finally` of the decorator), flag cleared, invariants, held references."""
+    rng = ctx.rng
+    for cfg in range(3 if ctx.tier == 'quick' else 30):
+        if ctx.time_left() < 10:
+            break
+        order = ['x', 'xp', 'y', 'yp', 'p0'][:rng.randint(4, 5)]
+        rng.shuffle(order)
+        h = History(ctx, order)
+        for n in order:
+            h.add(h.s.op(0, 'var', n))
+        for _ in range(rng.randint(10, 25)):
+            h.step(dict(apply=9, ite=2, hold=3))
+        cand = [u for u in h.pool if abs(u) != 1]
+        rng.shuffle(cand)
+        for u in cand[:3]:
+            if u not in h.held:
+                h.hold(u)
+        held = [u for u in h.held if abs(u) != 1]
+        lines = list(h.s.lines)
+        lvl = dict(h.b.vars)
+        h.s.close()
+        if not held:
+            continue
+        names = sorted(order)
+        tr, src = rng.choice(held), rng.choice(held)
+        fa = rng.randint(0, 1)
+        jobs = [
+            ('image', [tr, src, 'n:xp=n:zz', 'n:x', fa]),                 # undeclared target
+            ('image', [tr, src, f'l:{lvl["xp"]}=n:zz,n:yp=n:y', 'n:x,n:y', fa]),
+            ('preimage', [tr, src, 'n:x=n:zz', 'n:xp', fa]),
+            ('image', [tr, src, 'n:xp=n:x,n:x=n:xp', 'n:x', fa]),         # overlap
+            ('image', [tr, src, 'n:xp=n:x', '', fa]),                     # target in the support?
+            ('image', [tr, src, 'n:xp=n:x', 'n:zz', fa]),                 # invalid qvars
+            ('preimage', [tr, src, 'n:x=n:xp', 'l:17', fa]),
+            ('preimage', [tr, src, 'n:x=l:9', 'n:xp', fa]),               # value below the bottom
+        ]
+        for op, args in jobs:
+            ref_s = replay_lines(ctx, lines)
+            b0 = ref_s.mgr(0)
+            held_tt = {u: TT(b0, names).of(u) for u in held}
+            ans0 = ref_s.op(0, op, *args)
+            ctx.add_session(ref_s, SECTIONS_L3, f'C09 rejected {op} reference')
+            ref_s.close()
+            if not ans0.startswith('err'):
+                continue
+            k = 1
+            while k <= 40:
+                s = replay_lines(ctx, lines)
+                b = s.mgr(0)
+                s.op(0, 'configure', 1)
+                s.op(0, 'fire_in', k)
+                ans = s.op(0, op, *args)
+                fired = id(b) not in implmod._FIRE
+                s.op(0, 'fire_off')
+                bad = []
+                tags = dict(call='dyn:' + op + '-rejected')
+                if ans == 'err NeedsReordering':
+                    bad.append('the internal reordering signal was raised to the caller')
+                elif ans != ans0:
+                    bad.append(f'{ans0} without reordering, {ans} with a request at {k}')
+                if b._last_len is None:
+                    bad.append('reordering is no longer enabled afterwards')
+                if b._reordering_context:
+                    bad.append('context flag left set')
+                tt = TT(b, names)
+                for u, t in held_tt.items():
+                    if abs(u) not in b._succ:
+                        bad.append(f'held reference {u} deleted')
+                    elif tt.of(u) != t:
+                        bad.append(f'held reference {u} changed')
+                bad += check_invariants(b, s.ledger.get(0, {}))
+                ctx.evaluations += 1
+                ctx.count('trigger:rejected-' + op)
+                if bad:
+                    ctx.violation(f'rejected {op}: reordering at request {k} is visible', dict(
+                        problems=bad[:4], k=k, op=op, args=args, lines=list(s.lines), tags=tags))
+                s.state(0)
+                ctx.add_session(s, SECTIONS_L3, f'C09 rejected {op} k={k}')
+                s.close()
+                ctx.case(('trigger-rejected', op, k, tuple(lines[-2:]), tuple(map(str, args))))
+                if not fired:
+                    break
+                k += 1
+
